@@ -173,7 +173,12 @@ def _run_net_async(case, out):
                 raises = len(op) > 1 and op[1] == "raises" and not live
                 _AsyncDispatcher.fail_next_connect = raises
                 try:
-                    stack.broadcastEvent(YowLayerEvent(YowNetworkLayer.EVENT_STATE_CONNECT))
+                    if len(op) > 1 and op[1] == "api":
+                        # the way the interface layer, the cli demo and the key-upload reconnect ask for a connection
+                        top.getLayerInterface(YowNetworkLayer).connect()
+                        out.label("connect_through_layer_interface")
+                    else:
+                        stack.broadcastEvent(YowLayerEvent(YowNetworkLayer.EVENT_STATE_CONNECT))
                 except IOError:
                     out.label("connect_raises")
                     timeline.append("attempt_over")
@@ -853,7 +858,7 @@ def _enum_basic():
 
 def net_async_strategy():
     sel = st.integers(0, 2)
-    op = st.one_of(st.just(["connect_request"]), st.just(["connect_request"]), st.just(["connect_request", "raises"]), st.tuples(st.just("established"), sel).map(list),
+    op = st.one_of(st.just(["connect_request"]), st.just(["connect_request"]), st.just(["connect_request", "raises"]), st.just(["connect_request", "api"]), st.tuples(st.just("established"), sel).map(list),
                    st.tuples(st.just("established"), sel).map(list), st.tuples(st.just("refused"), sel).map(list),
                    st.tuples(st.just("peer_close"), sel).map(list), st.just(["disconnect_request"]), st.tuples(st.just("data"), sel).map(list),
                    st.just(["send"]), st.just(["loop"]))
@@ -866,6 +871,8 @@ def _enum_net_async():
                                        ["connect_request"], ["established", 0], ["send"]]}
     yield {"sub": "net_async", "ops": [["connect_request"], ["refused", 0], ["loop"], ["connect_request"], ["connect_request"], ["established", 0],
                                        ["disconnect_request"], ["loop"], ["connect_request"], ["established", 0], ["data", 0]]}
+    yield {"sub": "net_async", "ops": [["connect_request"], ["connect_request", "api"], ["established", 0], ["established", 0], ["data", 0], ["loop"]]}
+    yield {"sub": "net_async", "ops": [["connect_request", "api"], ["established", 0], ["connect_request", "api"], ["data", 0], ["peer_close", 0], ["loop"]]}
     yield {"sub": "net_async", "ops": [["connect_request", "raises"], ["connect_request"], ["established", 0], ["data", 0], ["peer_close", 0], ["loop"],
                                        ["connect_request", "raises"], ["connect_request", "raises"], ["connect_request"], ["established", 0], ["send"]]}
     yield {"sub": "net_async", "ops": [["connect_request"], ["disconnect_request"], ["connect_request"], ["established", 0], ["established", 0],
